@@ -128,7 +128,13 @@ def meta_universe(g: Gen, n=40):
            Metadata(details={"a": 0}), Metadata(details={"a": 2**61 - 1}),
            # integers beyond 2**53: distinct as ints, equal after a conversion to float
            Metadata(per_occurrence_limit=2**53), Metadata(per_occurrence_limit=2**53 + 1), Metadata(per_occurrence_limit=10**17 + 3),
-           Metadata(per_occurrence_limit=10**17 + 5), Metadata(details={"a": 2**53}), Metadata(details={"a": 2**53 + 1})]
+           Metadata(per_occurrence_limit=10**17 + 5), Metadata(details={"a": 2**53}), Metadata(details={"a": 2**53 + 1}),
+           # round 8: ==-equal metadata whose loss_details / details were WRITTEN in different key orders (e.g. a key added
+           # later by derive_metadata), with a distinct metadata that sorts between the two spellings if order leaks
+           Metadata(loss_details={"peril": "wind", "zone": "A"}), Metadata(loss_details={"zone": "A", "peril": "wind"}),
+           Metadata(loss_details={"peril": "wind", "zone": "B"}), Metadata(loss_details={"zone": "0", "peril": "wind"}),
+           Metadata(details={"x": 1}, loss_details={"b": 2, "a": 1}), Metadata(details={"x": 1}, loss_details={"a": 1, "b": 2}),
+           Metadata(details={"x": 1}, loss_details={"a": 1, "b": 3}), Metadata(details={"x": 1}, loss_details={"b": 0, "a": 2})]
     return ms[: max(n, len(ms))]
 
 
